@@ -2,10 +2,14 @@ package plyx
 
 import (
 	"bytes"
+	"io"
+	"os"
+	"path/filepath"
 	"time"
 
 	"github.com/EliCDavis/polyform/formats/ply"
 	"github.com/EliCDavis/polyform/modeling"
+	"github.com/EliCDavis/polyform/nodes"
 )
 
 // SafeReadLong is SafeRead with a deadline fit for files of a few hundred kilobytes on a loaded machine.
@@ -22,4 +26,73 @@ func TopoCoq(m *modeling.Mesh) (string, bool) {
 		return "TPoint", true
 	}
 	return "TPoint", false
+}
+
+// shortReader hands the data out in pieces of varying size (an io.Reader may return fewer bytes than asked for).
+type shortReader struct {
+	data []byte
+	pos  int
+	s    uint64
+}
+
+func (c *shortReader) Read(p []byte) (int, error) {
+	if c.pos >= len(c.data) {
+		return 0, io.EOF
+	}
+	if len(p) == 0 {
+		return 0, nil
+	}
+	c.s = c.s*6364136223846793005 + 1442695040888963407
+	n := 1 + int((c.s>>33)%997)
+	if n > len(p) {
+		n = len(p)
+	}
+	if n > len(c.data)-c.pos {
+		n = len(c.data) - c.pos
+	}
+	copy(p, c.data[c.pos:c.pos+n])
+	c.pos += n
+	return n, nil
+}
+
+// OtherPaths reads the same bytes the other ways polyform offers and returns a description of the first way whose
+// result differs from want (the outcome of ReadMesh on a bytes.Reader), "" when all agree: a reader that returns short
+// reads, ply.Load on a file (bufio.Reader around *os.File), and the ReadNode wrapper of formats/ply/types.go (which
+// returns the mesh, or an empty point mesh when the file does not load).
+func OtherPaths(data []byte, want Outcome, dir string) string {
+	same := func(o Outcome) bool {
+		if o.Class != want.Class {
+			return false
+		}
+		if o.Class != "mesh" {
+			return true
+		}
+		a, _ := MeshCoq(o.Mesh)
+		b, _ := MeshCoq(want.Mesh)
+		return a == b
+	}
+	short := Guard(30*time.Second, func() (*modeling.Mesh, error) {
+		return ply.ReadMesh(&shortReader{data: data, s: uint64(len(data))})
+	})
+	if !same(short) {
+		return "a reader that returns short reads: " + short.Class + " " + short.Msg + " (bytes.Reader: " + want.Class + ")"
+	}
+	path := filepath.Join(dir, "c08-load.ply")
+	if err := os.WriteFile(path, data, 0o644); err == nil {
+		file := Guard(30*time.Second, func() (*modeling.Mesh, error) { return ply.Load(path) })
+		os.Remove(path)
+		if !same(file) {
+			return "ply.Load on a file: " + file.Class + " " + file.Msg + " (bytes.Reader: " + want.Class + ")"
+		}
+	}
+	if want.Class == "mesh" {
+		node := Guard(30*time.Second, func() (*modeling.Mesh, error) {
+			m, err := ply.ReadNodeData{In: nodes.Value(data).Out()}.Process()
+			return &m, err
+		})
+		if !same(node) {
+			return "ReadNode: " + node.Class + " " + node.Msg + " (bytes.Reader: mesh)"
+		}
+	}
+	return ""
 }
